@@ -267,6 +267,9 @@ def run(db, cx):
                           why="De Morgan needs the dual operator: not(A and B) = not A OR not B")
     cx.require(found, "DeMorganSimplifier: dual-operator expression not found")
 
+    # ------------------------------------------------ De Morgan: scans over all parents
+    parent_scans(db, cx)
+
     # ------------------------------------------------ visitors: no catch-all, same coverage
     visitors = {}
     for cls in ("orangeinp::detail::PostfixLogicBuilderImpl", "orangeinp::detail::InfixStringBuilder",
@@ -473,3 +476,63 @@ def dedup_consistency(db, cx):
             if "f:std::pair::second" in (ev.get("path") or {}).get("chain", []):
                 n += 1
     cx.floor("dedup-table mutations in CsgTree::exchange", n, 2)
+
+
+def parent_scans(db, cx):
+    """C10.10-parent-scan: a join may be shared by several parents (the tree is a DAG); whether
+    it has to be kept, negated or both is a property of *all* its parents.  Every boolean scan
+    over the parents matrix in DeMorganSimplifier is therefore a short-circuit fold: a return
+    from inside the loop is a literal (the absorbing value), the same one at every exit, and the
+    return after the loop is the opposite literal.  Returning a computed value from inside the
+    loop decides on the first parent only."""
+    from cfg import loops_of
+    PARENTS = "F:" + C + "orangeinp::detail::DeMorganSimplifier::parents_"
+    n = 0
+    for nm in db.find(r"orangeinp::detail::DeMorganSimplifier::"):
+        for f in db.get(nm):
+            if f.r.get("ret", "") not in ("bool", "_Bool"):
+                continue
+            for (h, body) in loops_of(f):
+                reads = any(PARENTS in f.blocks[b].get("cond", {}).get("refs", []) + f.blocks[b].get("cond", {}).get("allrefs", [])
+                            or any(PARENTS in ev.get("refs", []) for ev in f.blocks[b]["ev"]) for b in body)
+                if not reads:
+                    continue
+                inner, after = [], []
+                for bb in sorted(body):
+                    for sx in f.succ(bb):
+                        if sx in body or sx is None:
+                            continue
+                        # follow straight-line blocks to the return
+                        cur, hops, ret = sx, 0, None
+                        while cur is not None and hops < 6 and ret is None:
+                            for ev in f.blocks[cur]["ev"]:
+                                if ev["e"] == "return":
+                                    ret = ev
+                                    break
+                            nxt = [x for x in f.succ(cur) if x is not None]
+                            cur = nxt[0] if len(nxt) == 1 else None
+                            hops += 1
+                        if ret is None:
+                            continue
+                        (after if bb == h else inner).append(ret)
+                # a `break` leaves the body too, but joins the normal exit: not an in-loop return
+                after_locs = set(r["loc"] for r in after)
+                inner = [r for r in inner if r["loc"] not in after_locs]
+                if not inner:
+                    continue
+                n += 1
+                lits = set(r.get("lit") for r in inner)
+                ok = len(lits) == 1 and lits <= {"true", "false"}
+                ok_after = bool(after) and all(r.get("lit") in ("true", "false") and r.get("lit") not in lits
+                                               for r in after)
+                cx.ob("C10.10-parent-scan", "%s: the scan over the parents at %s is a short-circuit fold"
+                      % (nm.split("DeMorganSimplifier::", 1)[1][:50], short(f.blocks[h].get("tloc", f.loc))
+                         if isinstance(f.blocks[h].get("tloc"), str) else short(f.loc)),
+                      ok and ok_after,
+                      "returns inside the loop: %s; after it: %s" % (sorted(set(r.get("t", "?")[:50] for r in inner)),
+                                                                   sorted(set(r.get("t", "?")[:50] for r in after))),
+                      short(inner[0]["loc"]),
+                      why="a shared join has several parents: an answer taken from the first one drops "
+                          "the join (or its negation) that a later parent still needs, and the rewritten "
+                          "tree denotes another region")
+    cx.floor("boolean scans over the De Morgan parents matrix", n, 2)
